@@ -390,6 +390,58 @@ def h_history(h, seq_i):
     h.claim(f'C02/history/{seq_i}/frame', frame_same(h, pre, post))
 
 
+HIST_TARGETS = {
+    'pressure': [('absolute', 'bar'), ('absolute', 'Pa'), ('relative', None), ('relative%', None), ('absolute', None), (None, 'torr')],
+    'loading': [('molar', 'mmol'), ('mass', 'mg'), ('volume_liquid', 'cm3'), ('fraction', None), ('percent', None), ('mass', None)],
+    'material': [('mass', 'g'), ('mass', 'kg'), ('volume', 'cm3'), ('molar', 'mol'), ('volume', None)],
+}
+HIST_CALL = {'pressure': ('convert_pressure', 'mode_to', exp_pressure), 'loading': ('convert_loading', 'basis_to', exp_loading),
+             'material': ('convert_material', 'basis_to', exp_material)}
+
+
+def h_history3(h, quantity, first, lbasis):
+    """bounded histories (complement of the inductive step: state the code keeps OUTSIDE the labels and the data - a hidden
+    cache - is invisible to a one-step argument from a freshly built state).  Every 3-step sequence of conversions of one
+    quantity over representative targets (incl. calls that omit the unit and are refused) on ONE isotherm object: after every
+    step the labels are the expected ones and the data are the ghost base quantity expressed in them."""
+    env = Env(h)
+    S0 = dict(pressure_mode='absolute', pressure_unit='bar', loading_basis=lbasis, loading_unit=None if lbasis in FR else 'mmol',
+              material_basis='mass', material_unit='g', temperature_unit='K')
+    meth, kwname, exp_fn = HIST_CALL[quantity]
+    targets = HIST_TARGETS[quantity]
+    for second in range(len(targets)):
+        for third in range(len(targets)):
+            iso = env.make(S0)
+            pre = snapshot(iso)
+            bp, bn = env.base_of(S0, pre['p'], pre['n'])
+            S = dict(S0)
+            ok_labels, ok_data, info = True, True, ''
+            for step, ti in enumerate((first, second, third)):
+                a, b = targets[ti]
+                before = snapshot(iso)
+                try:
+                    getattr(iso, meth)(**{kwname: a, 'unit_to': b})
+                    raised = None
+                except Exception as e:      # noqa: BLE001
+                    raised = e
+                post = snapshot(iso)
+                if raised is not None:
+                    ok_labels = ok_labels and post['labels'] == before['labels']
+                    ok_data = ok_data & data_same(h, before, post)
+                    info = info or f'step {step}: refused ({type(raised).__name__})'
+                    continue
+                want = exp_fn(S, a, b)
+                if want is None or post['labels'] != want:
+                    ok_labels = False
+                    info = f'step {step} -> {(a, b)}: labels {post["labels"]} expected {want}'
+                    break
+                S = want
+                ok_data = ok_data & consistent(h, env, S, post, bp, bn, S0)
+            cid = f'C02/history3/{quantity}/{lbasis}/{first}-{second}-{third}'
+            h.claim(f'{cid}/labels-after-every-step', ok_labels, info=info)
+            h.claim(f'{cid}/data-after-every-step==base-in-current-labels', ok_data if ok_labels else True, info=info)
+
+
 def h_backend_fails(h, ci):
     """conversions that need thermodynamic data the backend cannot deliver are refused without side effects"""
     env = Env(h)
@@ -479,6 +531,11 @@ def obligations(tier):
             obs.append(Obligation(f'C02/convert/state{si}/{ci}', h_convert_combined, (si, ci), bounds='k=3; 3 start states x 11 argument sets', **kw))
     for i in range(4):
         obs.append(Obligation(f'C02/history/{i}', h_history, (i,), bounds='explicit histories of 2-5 steps', **kw))
+    for q in ('pressure', 'loading', 'material'):
+        for first in range(len(HIST_TARGETS[q])):
+            for lb in (('molar',) if q == 'pressure' else ('molar', 'fraction') if q == 'material' else ('molar',)):
+                obs.append(Obligation(f'C02/history3/{q}/{lb}/{first}', h_history3, (q, first, lb),
+                                      bounds=f'k=3; all {len(HIST_TARGETS[q])}^2 continuations of this first step on one object', **kw))
     for i in range(5):
         obs.append(Obligation(f'C02/backend-fails/{i}', h_backend_fails, (i,), bounds='backend raises on every call, no user properties', **kw))
     for i in range(2):
